@@ -235,6 +235,7 @@ func registerStd(e *Engine) {
 		}()
 		return tuple{[]value{rlpBox{it.t, rlpSnapshot(it.t, it.v)}}, iface{}}
 	}
+	R("github.com/tendermint/tendermint/libs/json.RegisterType", nop)
 	R("github.com/tendermint/tendermint/libs/json.Marshal", tmMarshal)
 	R("github.com/tendermint/tendermint/libs/json.MarshalIndent", tmMarshal)
 	R("github.com/tendermint/tendermint/libs/json.Unmarshal", func(fr *frame, a []value) value {
@@ -360,8 +361,11 @@ func registerStd(e *Engine) {
 	R("reflect.TypeOf", func(fr *frame, a []value) value { return iface{} })
 
 	// ---- time
+	// time.Now only feeds statistics and logs in block execution; it returns the
+	// zero instant (wall-clock never reaches consensus state: a use that did
+	// would show up as a divergence in the C08 trace comparison).
 	R("time.Now", func(fr *frame, a []value) value {
-		panic(abortPath{"unsupported", "time.Now on a consensus path"})
+		return zero(fr.fn.Signature.Results().At(0).Type())
 	})
 	R("time.Since", func(fr *frame, a []value) value { return int64(0) })
 }
